@@ -161,6 +161,13 @@ def specOp (t : STable) : BatchOp → Except SErr STable
     else if t.implicitlyGone.contains n then .ok { t with absentIndexes := n :: t.absentIndexes }
     else .error .undefined
 
+  | .existingTypeConst n renames retypes drops =>
+    -- the call names the schema type's CHECK through `existing_type`; when it renames, retypes or drops the column
+    -- the constraint is mentioned by the operation (nothing is demanded of it); otherwise it is untouched
+    if renames || retypes || drops then
+      .ok { t with checks := t.checks.filter (fun c => c.name != some n), implicitlyGone := n :: t.implicitlyGone }
+    else .ok t
+
 def specApply (t : STable) : List BatchOp → Except SErr STable
   | [] => .ok t
   | o :: r =>
